@@ -4,7 +4,8 @@ PROP = {
     "theorems": ["Grol.E.evalInfixOp_readOnly", "Grol.E.C06.plus_has_no_effect", "Grol.E.C06.write_frame", "Grol.E.C06.delete_frame",
                  "Grol.E.C06.envCreate_frame", "Grol.E.C06.index_assignment_builds_new_value", "Grol.E.C06.mapSet_threshold_independent",
                  "Grol.E.C06.thresholds_only_feed_cache", "Grol.E.readOnly_evalArrayInfix", "Grol.E.readOnly_equalsM", "Grol.E.readOnly_valueOf",
-                 "Grol.E.C06.copy_then_index_assign_keeps_original", "Grol.E.C06.index_assign_stmt_top", "Grol.E.C06.createOrSet_top"],
+                 "Grol.E.C06.copy_then_index_assign_keeps_original", "Grol.E.C06.copy_then_map_set_keeps_original", "Grol.E.C06.append_keeps_operands",
+                 "Grol.E.C06.index_assign_stmt_top", "Grol.E.C06.createOrSet_top"],
     "suites": ["values"],
     "rule": "values suite: a case is a history of bind / copy / mutate operations over the bindings a, b, c (m, x for nesting), one operation per input, run by the real "
             "interpreter under 4 configurations and by the value-semantic Lean model; after every input ALL globals are dumped with typed values. Vocabulary: 22 array "
@@ -25,7 +26,7 @@ PROP = {
     "assumptions": EVAL_ASSUME + ["C06.Statement is about the implementation and is false of the current code for large containers (2 open classes, witnesses replayed every run; the append class is repaired by repo fix 11369d7)"],
 }
 LEVEL = {"text": "Kernel-checked theorems that the reference model has value semantics (writes are framed to the assigned name, every infix operator leaves the state unchanged, "
-                 "the operator layer ignores the thresholds; statement level: running `b = a; b[i] = n` through the evaluator model at top level leaves `a` bound to its array of ANY length and binds `b` to the updated copy) + exhaustive short and random long histories on the real interpreter compared with that model after every step.",
+                 "the operator layer ignores the thresholds; statement level: running `b = a; b[i] = n` through the evaluator model at top level leaves `a` bound to its array of ANY length and binds `b` to the updated copy, the same for a map of any number of pairs, and `c = a + b` leaves `a`, `b` bound to their arrays of any length) + exhaustive short and random long histories on the real interpreter compared with that model after every step.",
          "design_ref": "DESIGN.md section 7, C06",
          "note": "False of the current code for large containers: two open known-finding classes (index assignment, map set/delete), each with a witness replayed "
                  "on every run; copy-on-write was judged not a small safe patch.",
